@@ -142,6 +142,19 @@ func mutantsOf(name string, data []byte, r *hx.Rng, budget int, emit func(mutant
 				}
 			}
 		}
+		// type confusion: the same bytes under every other registered box type
+		if b.size <= 1<<16 {
+			for _, nn := range registeredNames() {
+				nn := nn
+				if nn != b.name {
+					add(fmt.Sprintf("rename(%s@%d)=%x", b.name, b.off, nn), func() []byte {
+						c := append([]byte(nil), data...)
+						copy(c[b.off+4:b.off+8], nn)
+						return c
+					})
+				}
+			}
+		}
 		// removal / duplication with the ancestors' sizes kept consistent
 		add(fmt.Sprintf("remove(%s@%d)", b.name, b.off), func() []byte {
 			c := append([]byte(nil), data[:b.off]...)
@@ -261,6 +274,16 @@ func boxPipeline(data []byte) string {
 	return strings.Join(res, "|")
 }
 
+var regNames []string
+
+// registeredNames: the box types of the decoder tables (through the C03 hook)
+func registeredNames() []string {
+	if regNames == nil {
+		regNames, _ = mp4.VerifDecoderKeys()
+	}
+	return regNames
+}
+
 func testdataFiles() []string {
 	var names []string
 	ents, _ := os.ReadDir(testdataDir)
@@ -333,6 +356,16 @@ func cmdSearch(seed uint64, n int) {
 				descs = append(descs, m.desc)
 			})
 		}
+	}
+	// a flat container with very many children and a size mismatch (error-path cost)
+	{
+		var body []byte
+		for i := 0; i < 20000; i++ {
+			body = append(body, free(0)...)
+		}
+		d := cat(u32(uint32(8+len(body)-4)), []byte("udta"), body)
+		jobs = append(jobs, job{kind: "X", cfg: "-", data: d})
+		descs = append(descs, "seed:udta-with-20000-children-size-mismatch")
 	}
 	// the fuzz corpus of the repository
 	fz, _ := filepath.Glob(filepath.Join(testdataDir, "fuzz", "FuzzDecodeBox", "*"))
